@@ -368,6 +368,30 @@ func execScript(s *scriptScn) *scriptObs {
 					delete(conns[side], a.ID)
 				}
 			}
+		case "deadline":
+			// Set[Read|Write]Deadline on a logical connection (Mode 0 both, 1 read, 2 write), a.N milliseconds from now
+			// (negative: already expired).  For the Mux this is a no-op; the trunk all connections share must not notice
+			if needConn() {
+				t := time.Now().Add(time.Duration(a.N) * time.Millisecond)
+				r = bounded(func() actRes {
+					var err error
+					switch a.Mode {
+					case 1:
+						err = cn.SetReadDeadline(t)
+					case 2:
+						err = cn.SetWriteDeadline(t)
+					default:
+						err = cn.SetDeadline(t)
+					}
+					if err != nil {
+						return classify(err)
+					}
+					return actRes{Kind: "ok"}
+				})
+			}
+		case "pause":
+			time.Sleep(time.Duration(a.N) * time.Millisecond) // lets a deadline armed before expire
+			r = actRes{Kind: "ok"}
 		case "staleclose":
 			// Close once more on the most recent stale handle of the id
 			hs := stale[side][a.ID]
